@@ -91,12 +91,16 @@ def check_polygon(P, viol, tol=1e-9):
     a, sg, per, nxt, prv = observe(P)
     ra = ref_area(P)
     rp = ref_perimeter(P)
-    scale = max(1.0, abs(ra), rp)
-    if abs(a + ra) > tol * scale:
+    # relative tolerance plus the rounding of a shoelace sum over coordinates of magnitude M (so that neither a small length
+    # unit nor a large offset from the origin turns the comparison into a formality)
+    M = max(max(abs(q[0]), abs(q[1])) for q in P)
+    tol_a = tol * abs(ra) + 8 * n * 2.3e-16 * M * M
+    tol_p = tol * rp + 8 * n * 2.3e-16 * M
+    if abs(a + ra) > tol_a:
         viol.append({"what": "get_area is not minus the counter-clockwise shoelace area", "detail": {"P": P, "got": a, "ref": -ra}})
     if sg != (1 if -ra > 0 else -1):
         viol.append({"what": "get_area_sign wrong", "detail": {"P": P, "got": sg, "ref_area_ccw": ra}})
-    if abs(per - rp) > tol * scale:
+    if abs(per - rp) > tol_p:
         viol.append({"what": "get_perimeter is not the length of the closed cycle", "detail": {"P": P, "got": per, "ref": rp}})
     exp_sg = 1 if -ra > 0 else -1
     if nxt != [(i + exp_sg) % n for i in range(n)] or prv != [(i - exp_sg) % n for i in range(n)]:
@@ -115,7 +119,8 @@ def variants_check(P, viol, full_tr):
     n = len(P)
     a0, p0 = check_polygon(P, viol)
     states, trans = 1, 0
-    trs = [("id", 1.0, (0.0, 0.0)), ("tr", 1.0, (5.0, -3.0)), ("x3", 3.0, (0.0, 0.0)), ("x.5", 0.5, (0.0, 0.0))]
+    trs = [("id", 1.0, (0.0, 0.0)), ("tr", 1.0, (5.0, -3.0)), ("x3", 3.0, (0.0, 0.0)), ("x.5", 0.5, (0.0, 0.0)),
+           ("far", 1.0, (2000.0, 1500.0)), ("far4", 1.0, (1e4, -3e4)), ("x1e-5", 1e-5, (0.0, 0.0)), ("x1e-7", 1e-7, (0.0, 0.0)), ("x1e5", 1e5, (0.0, 0.0))]
     for s in range(n):
         for rev in (0, 1):
             Q = P[s:] + P[:s]
@@ -129,10 +134,11 @@ def variants_check(P, viol, full_tr):
                 states += 1
                 trans += 1
                 exp_a = (-a0 if rev else a0) * f * f
-                if abs(a - exp_a) > 1e-9 * max(1.0, abs(exp_a)):
+                M = max(max(abs(q[0]), abs(q[1])) for q in R)
+                if abs(a - exp_a) > 1e-9 * abs(exp_a) + 16 * n * 2.3e-16 * M * M:
                     viol.append({"what": "area not invariant under shift/translation, not sign-flipped by reversal, or not scaling with the square of the length factor",
                                  "detail": {"P": P, "shift": s, "rev": rev, "tr": nm, "got": a, "exp": exp_a}})
-                if abs(p - p0 * f) > 1e-9 * max(1.0, p0 * f):
+                if abs(p - p0 * f) > 1e-9 * p0 * f + 16 * n * 2.3e-16 * M:
                     viol.append({"what": "perimeter not invariant under shift/reversal/translation or not scaling with the length factor",
                                  "detail": {"P": P, "shift": s, "rev": rev, "tr": nm, "got": p, "exp": p0 * f}})
     return states, trans
